@@ -61,9 +61,12 @@ FullMatch(re, s) ==
     [] re.form = "alt"  -> s = re.a \/ s = re.b
 
 \* Impl: rule.go strictRegex(s) = regexp.MustCompile("^" + s + "$"); in "^a|b$" the anchors bind
-\* tighter than the alternation.
+\* tighter than the alternation. Used by SetDisabledChecks (and parser / prometheus include lists).
 StrictMatch(re, s) ==
   IF re.form = "alt" THEN IsPrefix(re.a, s) \/ IsSuffix(re.b, s) ELSE FullMatch(re, s)
+\* Impl: match.go matchRegex(s) = regexp.MustCompile("^(?:" + s + ")$") - the pattern is grouped, so every
+\* form is matched against the whole string (match / ignore conditions; fix 53538db, finding F14).
+MatchRegex(re, s) == FullMatch(re, s)
 
 Lit(a) == [form |-> "lit", a |-> a, b |-> ""]
 
@@ -244,19 +247,19 @@ EntryLabels(e) == MergeMaps(e.glabels, e.labels)
 
 \* MatchLabel.isMatching
 LabelIsMatching(ml, e) ==
-  \E i \in DOMAIN EntryLabels(e) : StrictMatch(ml.key, EntryLabels(e)[i].k) /\ StrictMatch(ml.value, EntryLabels(e)[i].v)
+  \E i \in DOMAIN EntryLabels(e) : MatchRegex(ml.key, EntryLabels(e)[i].k) /\ MatchRegex(ml.value, EntryLabels(e)[i].v)
 \* MatchAnnotation.isMatching (alerting rules only)
 AnnotationIsMatching(ma, e) ==
   /\ e.rkind = "alerting"
-  /\ \E i \in DOMAIN e.annotations : StrictMatch(ma.key, e.annotations[i].k) /\ StrictMatch(ma.value, e.annotations[i].v)
+  /\ \E i \in DOMAIN e.annotations : MatchRegex(ma.key, e.annotations[i].k) /\ MatchRegex(ma.value, e.annotations[i].v)
 
 \* Match.IsMatch.  e.for / e.kff = -1 when the field is absent (always for recording rules).
 IsMatch(m, e, cmd) ==
   /\ (m.command # "" => cmd = m.command)
   /\ (Len(m.state) # 0 => StateMatches(m.state, e.state))
   /\ (m.kind # "" => e.rkind = m.kind)
-  /\ (m.path.form # "none" => StrictMatch(m.path, e.path))
-  /\ (m.name.form # "none" => StrictMatch(m.name, e.name))
+  /\ (m.path.form # "none" => MatchRegex(m.path, e.path))
+  /\ (m.name.form # "none" => MatchRegex(m.name, e.name))
   /\ (m.label.set => LabelIsMatching(m.label, e))
   /\ (m.annotation.set => AnnotationIsMatching(m.annotation, e))
   /\ (m.for.op # "none" => e.rkind = "alerting" /\ e.for >= 0 /\ DurIsMatch(m.for, e.for))
@@ -275,15 +278,17 @@ DefaultRuleMatch(match, defaultStates) ==
 -----------------------------------------------------------------------------
 (* internal/config/parsed_rule.go: baseRules, parseRule                     *)
 \* parsedRule = [reg, rep, str, tags, locked, online, states, always, match, ignore, blk, kind]
+\*   plus `prom` (name of the server the instance is bound to, "" = none): not a field of the Go struct, kept for
+\*   the Doc side of C07 ("# pint disable name($prometheus)")
 BaseRules(proms, match) ==
   [i \in DOMAIN BaseRows |->
-     [reg |-> BaseRows[i].reg, rep |-> BaseRows[i].rep, str |-> BaseRows[i].rep, tags |-> <<>>, locked |-> FALSE,
+     [reg |-> BaseRows[i].reg, rep |-> BaseRows[i].rep, str |-> BaseRows[i].rep, tags |-> <<>>, prom |-> "", locked |-> FALSE,
       online |-> BaseRows[i].online, states |-> BaseRows[i].states, always |-> FALSE,
       match |-> match, ignore |-> <<>>, blk |-> 0, kind |-> BaseRows[i].kind]]
   \o Flatten([p \in DOMAIN proms |->
      [i \in DOMAIN PromRows |->
         [reg |-> PromRows[i].reg, rep |-> PromRows[i].rep, str |-> PromRows[i].rep \o "(" \o proms[p].name \o ")",
-         tags |-> proms[p].tags, locked |-> FALSE, online |-> PromRows[i].online, states |-> PromRows[i].states,
+         tags |-> proms[p].tags, prom |-> proms[p].name, locked |-> FALSE, online |-> PromRows[i].online, states |-> PromRows[i].states,
          always |-> FALSE, match |-> match, ignore |-> <<>>, blk |-> 0, kind |-> PromRows[i].kind]]])
 
 BlockVariant(block, kind) ==       \* 0 = the block does not configure this kind
@@ -300,21 +305,21 @@ MarkerRule(block, b, defaultStates) ==
   ELSE LET rep == IF block.marker = "report" THEN "rule/report" ELSE "rule/name" IN
        <<[reg |-> rep, rep |-> rep,
           str |-> IF block.marker = "report" THEN "rule/report" ELSE "rule/name(^" \o block.marker \o "$)",
-          tags |-> <<>>, locked |-> block.locked, online |-> FALSE, states |-> Live, always |-> FALSE,
+          tags |-> <<>>, prom |-> "", locked |-> block.locked, online |-> FALSE, states |-> Live, always |-> FALSE,
           match |-> DefaultRuleMatch(block.match, defaultStates), ignore |-> block.ignore, blk |-> b, kind |-> "marker"]>>
 
 ParseRule(block, b, proms, defaultStates) ==
   Flatten([i \in DOMAIN CfgRows |->
     LET row == CfgRows[i]
         j   == BlockVariant(block, row.kind)
-        mk(str, tags) == [reg |-> row.reg, rep |-> row.rep, str |-> str, tags |-> tags, locked |-> block.locked,
+        mk(str, tags, prom) == [reg |-> row.reg, rep |-> row.rep, str |-> str, tags |-> tags, prom |-> prom, locked |-> block.locked,
                           online |-> row.online, states |-> Live, always |-> FALSE,
                           match |-> DefaultRuleMatch(block.match, defaultStates), ignore |-> block.ignore,
                           blk |-> b, kind |-> row.kind]
     IN IF j = 0 THEN <<>>
        ELSE IF row.perprom
-       THEN [p \in DOMAIN proms |-> mk(SubstAt(row.str[block.kinds[j].v], proms[p].name), proms[p].tags)]
-       ELSE <<mk(row.str[block.kinds[j].v], <<>>)>>])
+       THEN [p \in DOMAIN proms |-> mk(SubstAt(row.str[block.kinds[j].v], proms[p].name), proms[p].tags, proms[p].name)]
+       ELSE <<mk(row.str[block.kinds[j].v], <<>>, "")>>])
   \o MarkerRule(block, b, defaultStates)
 
 
@@ -350,7 +355,7 @@ PRIsEnabled(pr, cfg, already, e, cmd) ==
 
 \* config.go GetChecksForEntry
 ErrorRule(e, defaultMatch) ==
-  [reg |-> e.errReporter, rep |-> e.errReporter, str |-> e.errReporter, tags |-> <<>>, locked |-> FALSE, online |-> FALSE,
+  [reg |-> e.errReporter, rep |-> e.errReporter, str |-> e.errReporter, tags |-> <<>>, prom |-> "", locked |-> FALSE, online |-> FALSE,
    states |-> AllStates, always |-> TRUE, match |-> defaultMatch, ignore |-> <<>>, blk |-> 0, kind |-> "error"]
 
 ParsedRules(cfg, e, cmd) ==
